@@ -183,6 +183,24 @@ func c05RunConfig(r *ev.Result, base string, idx int, cfg c05Config, cache strin
 			}
 		}
 	}
+	/* Requests for /c that are refused: whatever their answer carries, it
+	is no script pinning anything but the listener's key. */
+	for _, target := range []string{"/c?x=%zz", "/c?c2=h.example;x=1", "/c?%"} {
+		c, err := hworld.DialAddr(hp, "")
+		if nil != err {
+			break
+		}
+		res, err := c.Do(hworld.Get(target, hp))
+		c.Close()
+		if nil != err {
+			continue
+		}
+		for _, m := range regexp.MustCompile(`--pinnedpubkey\s+"?(sha256//)?([A-Za-z0-9+/=]*)`).FindAllSubmatch(res.Body, -1) {
+			if string(m[2]) != wire {
+				v("advertised-pin-differs/refused-script-request", fmt.Sprintf("the answer to %s (status %d) carries a curl command pinning %q, the listener presents %q: %q", target, res.Status, m[2], wire, trunc80(string(res.Body))))
+			}
+		}
+	}
 	w.Drain()
 	/* A shell that dies: the help is printed again. */
 	ci, err1 := hworld.DialAddr(hp, "")
